@@ -642,12 +642,9 @@ func init() {
 			}
 			before := bt.Snap["c05"].(map[string]acctSnap)
 			after := snapAll(w, w.C.Ctx())
-			contains := false
-			for _, o := range bt.Ops {
-				if o.IsFeeOp {
-					contains = true
-				}
-			}
+			// "contains a WRKChain or BEACON message": as a message of the transaction itself. A message only nested in an
+			// authorisation wrapper does not count - "no other message type (... authorisations) can move locked eFUND"
+			contains := bt.HasTopLevelFeeOp()
 			feeAmt := bt.Fee.AmountOf(w.Ent.P.Denom).BigInt()
 			if before[bt.Payer.Key()].locked.Sign() > 0 {
 				w.Class("c05.payer-with-locked")
